@@ -8,9 +8,10 @@ import PPProofs.Props.C13Gate
 #print axioms PP.TrimArity.wrapper_invariant
 #print axioms PP.TrimArity.sticky_arity
 #print axioms PP.TrimArity.first_return_sets_found
-#print axioms PP.TrimArity.body_exceptions_propagate_partial
+#print axioms PP.TrimArity.body_exceptions_propagate
+#print axioms PP.TrimArity.body_exceptions_propagate_probing
 #print axioms PP.TrimArity.body_exceptions_propagate_found
-#print axioms PP.TrimArity.indexError_after_found_becomes_parseException
+#print axioms PP.TrimArity.indexError_after_found_propagates
 #print axioms PP.TrimArity.return_value_protocol
 #print axioms PP.TrimArity.condition_protocol
 #print axioms PP.ActionGate.fired_ids_firable
